@@ -16,4 +16,4 @@ Extraction "extract/out/zwm.ml"
   CovM.memb CovM.Invb
   CmpM.cmp_top CmpM.w_eq CmpM.w_lt CmpM.w_gt CmpM.w_ne CmpM.w_ge CmpM.w_le CmpM.comparable CmpM.cst_lt DieCmpM.die_cmp DieCmpM.cu_cmp
   ValueM.show ValueM.stack_eqb EngineM.run BuildM.build_program DenM.den DenM.den_stream ScopeM.well_scoped SimplifyM.simplify RadixM.show_dec RadixM.show_hex RadixM.show_oct RadixM.show_bin RadixM.read_digits
-  ParseIntM.parse_int EscapeM.esc EscapeM.lex_string CliM.cli LexerM.lex_all LexerM.analyse LexerM.parses ForestM.raw_rows ForestM.cooked_rows ForestM.raw_units ForestM.cooked_units FindAttrM.find_attr IterM.walk_all ChildIterM.children AtvalM.at_value TypeCtxM.var_ctx TypeCtxM.enumerator_ctx TypeCtxM.lookup RangesM.die_ranges LocM.op_values SconM.run QuietM.quietb QuietM.has_format.
+  ParseIntM.parse_int EscapeM.esc EscapeM.lex_string CliM.cli LexerM.lex_all LexerM.analyse LexerM.parses ForestM.raw_rows ForestM.cooked_rows ForestM.raw_units ForestM.cooked_units FindAttrM.find_attr IterM.walk_all ChildIterM.children ChildIterM.entries AtvalM.at_value TypeCtxM.var_ctx TypeCtxM.enumerator_ctx TypeCtxM.lookup RangesM.die_ranges LocM.op_values SconM.run QuietM.quietb QuietM.has_format.
